@@ -121,6 +121,9 @@ package pongo2
 // sub-templates are compiled through the set of the referring template (C03: same ban lists; C11: same loaders)
 //@ func tagIncludeParser
 //@   at (*TemplateSet).FromFile requires {C03,C11} @same-set set == doc.template.set
+// if_exists skips a file that cannot be found, nothing else: an included file that exists but does not compile
+// (an unknown or banned tag or filter in it) is an error of the including template
+//@   ensures {C03,C19} @body-only-a-missing-file-is-skipped (r1 == nil && typeis(r0, "*tagIncludeEmptyNode")) ==> (ifExists && typeis(err, "*Error") && unbox(err, "*Error").Sender == "fromfile")
 //@ func tagExtendsParser
 //@   at (*TemplateSet).FromFile requires {C03,C11} @same-set set == doc.template.set
 //@ func tagImportParser
@@ -490,6 +493,8 @@ package pongo2
 //@   requires {C01,C18} @range 0 <= i && i <= j && j <= VLen(v)
 //@ func (*Value).Index
 //@   requires {C01,C18} @non-negative i >= 0
+//@   ensures {C18} @a-strings-item-is-its-character-at-that-position (RVKind(Resolved(v.val)) == 24 && 0 <= i && i < runecount(RVString(Resolved(v.val)))) ==> r0.val == RVOf(box(runestr(RVString(Resolved(v.val)), i)))
+//@   ensures {C18} @beyond-the-end-of-a-string-is-the-empty-string (RVKind(Resolved(v.val)) == 24 && i >= runecount(RVString(Resolved(v.val)))) ==> r0.val == RVOf(box(""))
 // sort.SliceStable calls the less function with indices inside the slice (ASSUMED protocol of the library)
 //@ func (*Value).IterateOrder$1
 //@   requires 0 <= i && i < len(rs) && 0 <= j && j < len(rs)
